@@ -69,6 +69,7 @@ for _n, _t in (('pair', 'PairEntry'), ('eam_density_fs', 'PairEntry'), ('eam_emb
     REG.classes['ConfigParser'].fields[_n] = T.List(T.Obj(_t))
 REG.classes['WrappedParser'].view_of = 'ConfigParser'
 viewed = view_source_fn('WrappedParser', 'ConfigParser')
+REG.classes['FilteredConfigParser'].proxy_of = ('ConfigParser', lambda z: viewed(FLT.wrapped(z)))      # A6: what the view does not define itself (raw_config_parser, parsed_sections ...) is the wrapped parser's
 
 StrL = z3.SeqSort(StrS); StrLL = z3.SeqSort(StrL)
 flat = chain_flat_fn(T.Str)
@@ -169,7 +170,7 @@ REG.add_class(ClassDecl('<ext>', 'ArgParser', {}, external=True))
 REG.add(Contract('<ext>', 'ArgParser.error', params=[('self', T.Obj('ArgParser')), ('message', T.Any)], ensures=lambda v, old, res: [],
     may_raise=lambda v: [('SystemExit', z3.BoolVal(True))], external=True, note='argparse.ArgumentParser.error(message): prints the usage and exits (SystemExit)', props=['C13']))
 from . import actions as ACT      # action_tabulate: verified contract (C17)
-for _f, _q, _ps in ((F_QA, 'action_list_items', ['cp']), (F_QA, 'action_list_item_labels', ['cp']), (F_QA, 'action_item_value', ['cp', 'key'])):
+for _f, _q, _ps in ((F_QA, 'action_item_value', ['cp', 'key']),):      # (the two listing actions: verified contracts in contracts/query_actions.py)
     REG.add(Contract(_f, _q, params=[(n_, T.Any) for n_ in _ps], ensures=lambda v, old, res: [], trusted=True, may_raise=lambda v: [('ConfigurationException', z3.Bool('action_rejects_model'))],
         note='an action of the front end applied to the parser it is given (what it writes is C01-C05, C14, C19); may end in a configuration error', props=['C13']))
 
@@ -210,3 +211,5 @@ REG.add(Contract(F_CLI, 'main', params=[],
     # no ConfigurationException leaves main(): it is handed to ArgumentParser.error, which exits with status 2 and the message 'configuration error - ...'
     raises_when=lambda v, old, exc: [z3.BoolVal(exc.cls in ('SystemExit', 'Exception', 'OSError'))], on_raise=lambda v, old: [],      # (the last two: evaluation failures while writing, C17 -- not configuration errors)
     carries=['raises'], props=['C16']))
+
+from . import query_actions as _QA      # registers the verified contracts of the listing actions called by _do_tabulation
